@@ -17,20 +17,20 @@ import (
 // (proposal ids come from receipts), so it runs against a live world; the produced blocks are
 // plain transaction lists that can be replayed on other replicas.
 type mixGen struct {
-	w        *harness.World
-	rng      *rand.Rand
-	ix       *model.Ix
-	pairs    []ixPairDef
-	open     []string // open proposal ids
-	voted    map[string]int
-	chains   []string
-	nextNew  int
-	t08      *t08
-	groups   []*mixGroup
-	ruleAddr []string
-	kinds    map[string]int
-	drained  bool
-	blocked  map[string]bool // pair -> its destination currently black-lists its source (as far as the generator knows)
+	w            *harness.World
+	rng          *rand.Rand
+	ix           *model.Ix
+	pairs        []ixPairDef
+	open         []string // open proposal ids
+	voted        map[string]int
+	chains       []string
+	nextNew      int
+	t08          *t08
+	groups       []*mixGroup
+	ruleAddr     []string
+	kinds        map[string]int
+	drained      bool
+	blocked      map[string]bool // pair -> its destination currently black-lists its source (as far as the generator knows)
 	ethFunded    bool
 	ethCtr       int64
 	ethContracts []*types.Address
@@ -46,8 +46,9 @@ func (g *mixGen) ethTx() pb.Transaction {
 	g.ethCtr++
 	price := big.NewInt(1000 + g.ethCtr)
 	other := harness.EthAddr(harness.EthKey("eth-receiver"))
-	// init code: returns the 10-byte runtime (PUSH1 0x2a; MSTORE; RETURN 32 bytes)
-	deploy := []byte{0x60, 0x0a, 0x60, 0x0c, 0x60, 0x00, 0x39, 0x60, 0x0a, 0x60, 0x00, 0xf3, 0x60, 0x2a, 0x60, 0x00, 0x52, 0x60, 0x20, 0x60, 0x00, 0xf3}
+	// init code: stores a word at slot 0xff (a binary storage key), then returns the 10-byte runtime
+	// (PUSH1 0x2a; MSTORE; RETURN 32 bytes)
+	deploy := []byte{0x60, 0x2a, 0x60, 0xff, 0x55, 0x60, 0x0a, 0x60, 0x11, 0x60, 0x00, 0x39, 0x60, 0x0a, 0x60, 0x00, 0xf3, 0x60, 0x2a, 0x60, 0x00, 0x52, 0x60, 0x20, 0x60, 0x00, 0xf3}
 	switch x := r.Intn(100); {
 	case x < 25:
 		g.note("eth-transfer")
